@@ -12,14 +12,16 @@
 //!
 //! `scan <c02|c03> run` reads input lines on stdin and prints them followed by
 //!     ` => sc=<bits,..|-|P> @<arm> <obs> @<arm> <obs> ...`
-//! sc = ScoringMatrix::score_position at every position 0..=L-M (brute force);
+//! sc = ScoringMatrix::score_position at every position 0..=L-M (brute force); then `ovf=c|w`:
+//! whether `usize + usize` panics on overflow in this build profile (c, dev) or wraps (w, release);
 //! c02 obs: `hits=<pos:bits,..|-> end=<N|P|X> take=<k>/<pos:bits,..|->/<N|P>;...`
 //!          (hits in yield order; end: N = next() returned None, P = a call panicked,
 //!           X = more hits than cells, the harness stopped iterating)
-//! c03 obs: `max=<k>/<consumed pos+pos..|->/<pos:bits|N|P>;...`
+//! c03 obs: `max=<k>/<consumed pos:bits+pos:bits..|->/<pos:bits|N|P>;...`
 //!          (fresh scanner, k calls of next() stopping at None, then max())
+//!          `maxb=<B'>/<answer under B'>/<answer under B>`: max() of a fresh scanner under another block size
 //! with `sw=`: c02 `sw=<hits of the k calls|->/<hits after the setters|->/<N|P|X>`,
-//!            c03 `swmax=<consumed pos+pos..|->/<pos:bits|N|P>`
+//!            c03 `swmax=<consumed pos:bits+pos:bits..|->/<pos:bits|N|P>`
 //! A panic inside `Scanner::new` gives `new=P` instead.
 //!
 //! `scan probe` prints facts about the toolchain the Coq model relies on.
@@ -248,6 +250,11 @@ fn run_case(prop: &str, c: &Case) -> String {
             out.push_str(&v.iter().map(|x| x.to_bits().to_string()).collect::<Vec<_>>().join(","));
         }
     }
+    // overflow checks of this build profile (dev: panic, release: wrap): the model of
+    // `self.row + self.block_size` (coq/scan/ScanWord.v) is evaluated in the same mode
+    let big = std::hint::black_box(usize::MAX);
+    let checked = no_panic(move || big + std::hint::black_box(1usize)).is_none();
+    out.push_str(if checked { " ovf=c" } else { " ovf=w" });
     let cells = striped.matrix().rows() * C + 4;
     for a in c.arms.chars() {
         // the scanner captures Pipeline::dispatch() when it is constructed
@@ -310,7 +317,7 @@ fn run_case(prop: &str, c: &Case) -> String {
                 let cons = if consumed.is_empty() {
                     "-".to_string()
                 } else {
-                    consumed.iter().map(|h| h.position().to_string()).collect::<Vec<_>>().join("+")
+                    consumed.iter().map(|h| format!("{}:{}", h.position(), h.score().to_bits())).collect::<Vec<_>>().join("+")
                 };
                 if end == 'P' {
                     items.push(format!("{}/{}/P", k, cons));
@@ -326,13 +333,31 @@ fn run_case(prop: &str, c: &Case) -> String {
                 out.push_str(" new=P");
             } else {
                 out.push_str(&format!(" max={}", if items.is_empty() { "-".to_string() } else { items.join(";") }));
+                // block-size independence (C03: "the answer does not depend on the block size"): max() of a
+                // fresh scanner under the case's block size and under another one (set before iteration)
+                {
+                    let alt: usize = if c.b == Some(1) { 7 } else { 1 };
+                    let show = |r: Option<Option<Hit>>| match r {
+                        None => "P".to_string(),
+                        Some(None) => "N".to_string(),
+                        Some(Some(h)) => format!("{}:{}", h.position(), h.score().to_bits()),
+                    };
+                    let s1 = new_scanner(c, &pssm, &striped).unwrap();
+                    let r1 = no_panic(move || s1.max());
+                    let mut s2 = new_scanner(c, &pssm, &striped).unwrap();
+                    let r2 = no_panic(move || {
+                        s2.block_size(alt);
+                        s2.max()
+                    });
+                    out.push_str(&format!(" maxb={}/{}/{}", alt, show(r2), show(r1)));
+                }
                 if let Some((k, t2, b2)) = c.sw {
                     let mut s = new_scanner(c, &pssm, &striped).unwrap();
                     let (consumed, end) = pull(&mut s, k);
                     let cons = if consumed.is_empty() {
                         "-".to_string()
                     } else {
-                        consumed.iter().map(|h| h.position().to_string()).collect::<Vec<_>>().join("+")
+                        consumed.iter().map(|h| format!("{}:{}", h.position(), h.score().to_bits())).collect::<Vec<_>>().join("+")
                     };
                     if end == 'P' {
                         out.push_str(&format!(" swmax={}/P", cons));
@@ -704,6 +729,9 @@ fn gen_case(rng: &mut Rng, prop: &str, tier: &str) -> Case {
         Some(ulp_step(s, if rng.chance(1, 2) { d } else { -d }))
     };
     let bopt = if b == 256 && rng.chance(1, 2) { None } else { Some(b) };
+    // block sizes that only fit a usize (one block covers every row; `0 + B` and `row += B` at the top of the
+    // range): the word-level model ScanWord.v is replayed for these (C02_word_scanner_eq)
+    let bopt = if rng.chance(1, 40) { Some(*rng.pick(&[usize::MAX, usize::MAX - 1, 1usize << 63, 1usize << 32, 100_000_000])) } else { bopt };
     // prefixes
     let t = thr.unwrap_or(0.0);
     let nq = scores.iter().filter(|&&s| s >= t).count();
@@ -769,7 +797,21 @@ fn gen_case(rng: &mut Rng, prop: &str, tier: &str) -> Case {
             2 => Some(t - 0.5 - (rng.below(8) as f32)),
             _ => Some(if finite.is_empty() { 1.0 } else { *finite.last().unwrap() }),
         };
-        let b2 = if t2.is_none() || rng.chance(1, 2) { Some(*rng.pick(&[1usize, 2, 3, 5, 7, 16, 256])) } else { None };
+        let mut b2 = if t2.is_none() || rng.chance(1, 2) { Some(*rng.pick(&[1usize, 2, 3, 5, 7, 16, 256])) } else { None };
+        // block sizes next to usize::MAX: B2 = 2^64 - d.  `self.row + self.block_size` overflows iff the
+        // row reached by the k calls is >= d (d <= R - 1 at most); d >= R never overflows (boundary of
+        // C02_word_setters_between_calls_sound).  Known finding F-scan-ovf when it does.
+        if rng.chance(1, 6) {
+            let r = (l + C - 1) / C;
+            let d = match rng.below(5) {
+                0 => 1,
+                1 => 2,
+                2 => r.max(1),
+                3 => r + 1,
+                _ => 1 + rng.below(2 * r as u64 + 2) as usize,
+            };
+            b2 = Some(usize::MAX - (d - 1));
+        }
         Some((k, t2, b2))
     } else {
         None
